@@ -32,6 +32,34 @@ CHECKS = {
             "After every explored execution the token and provenance tables are read through raw sqlite3 and compared "
             "with a per-step-class reference of the dependee set; acyclicity and dependee<depender checked on the whole table.",
             "As C04; recovery workflows are covered by the C16 harness once built.", "3/C07"),
+    "C02": ("model_checking", "E1", E1 + "; all arrival permutations; plain-python reference",
+            "Real CombinatorStep with Dot/Cartesian combinators and the nestings the engine builds, over a catalogue of "
+            "token streams (antichains of depth 1..3, parent/child mixes, multi-digit components, missing partners): "
+            "every arrival permutation (free choices) x driver/db deviations; emitted multiset == reference.",
+            "Cartesian depth 1 and same-depth inputs only; streams of <= 7 tokens; Cartesian{inner} is a known finding.", "3/C02"),
+    "C03": ("model_checking", "E2", E2,
+            "BFS over all put/get/late-subscribe/add_inter_port histories on the real Port, JobPort, FilterTokenPort and "
+            "InterWorkflowPort (1..4 consumers, 0..4 tokens, up to 11 tokens for late subscribers, 1-2 boundary rules), "
+            "each consumer's received sequence compared with the reference list after every operation.",
+            "Termination put last; self-targeting rules installed before tokens (engine usage).", "3/C03"),
+    "C06": ("model_checking", "E1", E1,
+            "Real CWLLoopOutput{Last,All}Step under every order of iteration tokens and markers for 1..4 instances "
+            "(all permutations for k<=4, transposition-bounded for k in 10..15) plus the translator's loop sub-graph "
+            "under the executor (0/1/3/11 iterations, scattered instances, job bodies).",
+            "Input port terminated last (translator wiring); counts above 15 not explored.", "3/C06"),
+    "C14": ("exploration", "E3", E3,
+            "All ordered pairs (and triples of a reduced domain) of Hardware values over a dyadic domain with aliasing "
+            "storage keys, checked against the arithmetic laws the scheduler relies on.",
+            "Dyadic domain; <= 3 storages.", "3/C14"),
+    "C20": ("model_checking", "E2", E2 + " (closure over all reachable graphs)",
+            "From the empty graph, every operation applied to the real DirectedGraph/DirectedAcyclicGraph from every "
+            "reachable graph on 3-5 labelled nodes, compared with a dict-of-sets reference; 12-node shaped graphs; "
+            "GraphMapper.move_token_to_root over all 4-node token DAGs.",
+            "Label universe of <= 5 nodes for the closure.", "3/C20"),
+    "C33": ("exploration", "E3", E3,
+            "All ordered pairs of tags (depth<=3, components 0..12) for compare_tags against the numeric key; get_tag "
+            "on every ordered non-empty subset of every prefix chain; job-name split/join.",
+            "Tags are dot-separated decimal integers.", "3/C33"),
     "C15": ("model_checking", "E1", E1,
             "Programs with concurrently scheduled jobs under every schedule within the bound; every JobToken's three "
             "directories exist, are registered in the data manager, and are disjoint across jobs unless fixed.",
